@@ -58,6 +58,34 @@ fn headers() -> Vec<(&'static str, &'static str, Vec<&'static str>, Vec<&'static
             vec![],
         ),
         (
+            // overrides keyed on function-pointer typedefs (the name==None path of FunctionSig::abi)
+            "abi_override_fnptr",
+            "typedef void (*cb_cu)(int code);\ntypedef int (*cb_efi)(void *image, void *table);\ntypedef void (*cb_this)(void *self);\ntypedef float (*cb_vec)(float x);\ntypedef void (*cb_plain)(int);\nstruct H { cb_cu a; cb_efi b; cb_this c; cb_vec d; cb_plain e; void (*inline_member)(int); };\nvoid install(struct H *h, cb_cu direct, cb_efi second);\ncb_vec pick(int which);\nextern cb_this g_cb;\n",
+            vec![
+                "--override-abi",
+                "cb_cu=C-unwind",
+                "--override-abi",
+                "cb_efi=efiapi",
+                "--override-abi",
+                "cb_this=thiscall",
+                "--override-abi",
+                "cb_vec=vectorcall",
+            ],
+            vec![],
+        ),
+        (
+            // both at once: named functions and the pointer types they take
+            "abi_override_mixed",
+            "typedef void (*cb_cu)(int code);\ntypedef int (*cb_efi)(void *image);\nvoid f_cu(cb_efi e);\nint f_efi(cb_cu c);\nstruct M { cb_cu c; cb_efi e; };\n",
+            vec![
+                "--override-abi",
+                "cb_cu|f_cu=C-unwind",
+                "--override-abi",
+                "cb_efi|f_efi=efiapi",
+            ],
+            vec![],
+        ),
+        (
             "abi_in_header",
             "void __attribute__((thiscall)) f_this(void*);\nvoid __attribute__((vectorcall)) f_vec(int);\nvoid __attribute__((stdcall)) f_std(int);\nvoid __attribute__((fastcall)) f_fast(int);\nvoid f_plain(int);\n",
             vec![],
@@ -147,7 +175,15 @@ const TABLE: &[Construct] = &[
 fn detect(tokens: &[String]) -> Vec<&'static str> {
     let mut found = vec![];
     let has_seq = |seq: &[&str]| tokens.windows(seq.len()).any(|w| w.iter().zip(seq).all(|(a, b)| a == b));
-    if has_seq(&["unsafe", "extern"]) {
+    // an `unsafe extern ["abi"] {` block; `unsafe extern "C" fn(..)` (a function-pointer type or
+    // a function item) is valid on every target and is not the gated construct
+    let unsafe_block = (0..tokens.len().saturating_sub(2)).any(|i| {
+        tokens[i] == "unsafe" && tokens[i + 1] == "extern" && {
+            let j = if tokens[i + 2].starts_with('"') { i + 3 } else { i + 2 };
+            tokens.get(j).map(|t| t == "{").unwrap_or(false)
+        }
+    });
+    if unsafe_block {
         found.push("unsafe_extern");
     }
     if has_seq(&["offset_of", "!"]) {
